@@ -105,6 +105,13 @@ def cases(seed, tier):
             prof['mac'] = []
             if pol.get('macs') is not None and re_.random() < 0.7:
                 pol['macs'] = []
+        rdup = gen.case_rng(seed, ID, i, 'repeat')
+        if rdup.random() < 0.06 and not c.get('role'):
+            # a peer that lists one name twice: in exact mode the list is compared as sent, in subset mode it is still drawn from the policy's list
+            cat = rdup.choice(['enc', 'mac', 'kex'])
+            if prof[cat]:
+                prof[cat] = list(prof[cat])
+                prof[cat].insert(rdup.randrange(len(prof[cat]) + 1), rdup.choice([x for x in prof[cat] if x not in refmodels.STRICT_MARKERS] or prof[cat]))
         rd = gen.case_rng(seed, ID, i, 'degenerate')
         if pol.get('hostkey_sizes') and rd.random() < 0.08:
             # a degenerate peer: an RSA host key (and CA key) with a modulus of a few bits only; whatever size the tool derives
